@@ -233,7 +233,13 @@ func (d c36Msg) message() Message {
 
 // ---- canonical dump ---------------------------------------------------------
 
-func c36DumpName(n *Name) string { return strconv.Quote(string(n.Data[:n.Length])) }
+// c36QuoteName quotes a presentation name without leaving spaces in it (dump
+// lines are split on spaces when a difference is classified).
+func c36QuoteName(s string) string {
+	return strings.ReplaceAll(strconv.Quote(s), " ", `\x20`)
+}
+
+func c36DumpName(n *Name) string { return c36QuoteName(string(n.Data[:n.Length])) }
 
 func c36DumpHeader(sb *strings.Builder, h *Header) {
 	fmt.Fprintf(sb, "H id=%d qr=%v op=%d aa=%v tc=%v rd=%v ra=%v ad=%v cd=%v rc=%d\n", h.ID, h.Response, h.OpCode,
@@ -326,38 +332,46 @@ func c36DumpBody(sb *strings.Builder, b ResourceBody) {
 
 // c36DumpRes dumps one resource. hdrType: true = dump Header.Type as stored,
 // false = dump the type implied by the body (what packing must produce).
-// withLen: include Header.Length.
-func c36DumpRes(sb *strings.Builder, sec int, r *Resource, hdrType, withLen bool) {
+func c36DumpRes(sb *strings.Builder, sec int, r *Resource, hdrType bool) {
 	t := r.Header.Type
 	if !hdrType {
 		t, _ = c36BodyType(r.Body)
 	}
 	fmt.Fprintf(sb, "R%d %s type=%d class=%d ttl=%d ", sec, c36DumpName(&r.Header.Name), t, r.Header.Class, r.Header.TTL)
-	if withLen {
-		fmt.Fprintf(sb, "len=%d ", r.Header.Length)
-	}
 	c36DumpBody(sb, r.Body)
 	sb.WriteByte('\n')
 }
 
-// c36Dump is the canonical form of a Message.
-func c36Dump(m *Message, hdrType, withLen bool) string {
+// c36Dump is the canonical form of a Message, plus the Header.Length of every
+// resource in message order (RDLENGTH depends on compression, so it is
+// compared separately).
+func c36Dump(m *Message, hdrType bool) (string, []uint16) {
 	var sb strings.Builder
+	var lens []uint16
 	c36DumpHeader(&sb, &m.Header)
 	for i := range m.Questions {
 		q := &m.Questions[i]
 		fmt.Fprintf(&sb, "Q %s type=%d class=%d\n", c36DumpName(&q.Name), q.Type, q.Class)
 	}
-	for i := range m.Answers {
-		c36DumpRes(&sb, 1, &m.Answers[i], hdrType, withLen)
+	for sec, rs := range [][]Resource{m.Answers, m.Authorities, m.Additionals} {
+		for i := range rs {
+			c36DumpRes(&sb, sec+1, &rs[i], hdrType)
+			lens = append(lens, rs[i].Header.Length)
+		}
 	}
-	for i := range m.Authorities {
-		c36DumpRes(&sb, 2, &m.Authorities[i], hdrType, withLen)
+	return sb.String(), lens
+}
+
+func c36LensEqual(a, b []uint16) bool {
+	if len(a) != len(b) {
+		return false
 	}
-	for i := range m.Additionals {
-		c36DumpRes(&sb, 3, &m.Additionals[i], hdrType, withLen)
+	for i := range a {
+		if a[i] != b[i] {
+			return false
+		}
 	}
-	return sb.String()
+	return true
 }
 
 // ---- reference encoder (RFC 1035 §4.1, no compression) -----------------------
@@ -640,7 +654,7 @@ func (d *c36Rd) svcb(sb *strings.Builder, end int) error {
 		}
 		params = append(params, fmt.Sprintf(" %d:%s", k, hex.EncodeToString(v)))
 	}
-	fmt.Fprintf(sb, "prio=%d target=%s params=%d%s", prio, strconv.Quote(tgt), len(params), strings.Join(params, ""))
+	fmt.Fprintf(sb, "prio=%d target=%s params=%d%s", prio, c36QuoteName(tgt), len(params), strings.Join(params, ""))
 	return nil
 }
 
@@ -653,7 +667,7 @@ func (d *c36Rd) rdata(sb *strings.Builder, typ uint16, rdlen int) error {
 	}
 	nm := func() (string, error) {
 		s, err := d.name()
-		return strconv.Quote(s), err
+		return c36QuoteName(s), err
 	}
 	var err error
 	switch typ {
@@ -776,20 +790,29 @@ func (d *c36Rd) rdata(sb *strings.Builder, typ uint16, rdlen int) error {
 
 // c36RefDecode decodes a complete message strictly (every record's RDATA must
 // fill its RDLENGTH exactly, nothing may follow the last record) and returns
-// the dump in the format of c36Dump(m, true, true), and the number of
-// compression pointers followed.
-func c36RefDecode(msg []byte) (string, int, error) {
+// the dump and RDLENGTH list in the format of c36Dump(m, true), and the number
+// of compression pointers followed.
+func c36RefDecode(msg []byte) (string, []uint16, int, error) {
+	s, lens, p, err := c36RefDecode1(msg)
+	if err != nil {
+		return "", nil, 0, err
+	}
+	return s, lens, p, nil
+}
+
+func c36RefDecode1(msg []byte) (string, []uint16, int, error) {
+	var lens []uint16
 	d := &c36Rd{msg: msg}
 	var sb strings.Builder
 	id, err := d.u16()
 	if err != nil {
-		return "", 0, err
+		return "", nil, 0, err
 	}
 	bits, _ := d.u16()
 	var cnt [4]uint16
 	for i := range cnt {
 		if cnt[i], err = d.u16(); err != nil {
-			return "", 0, err
+			return "", nil, 0, err
 		}
 	}
 	fmt.Fprintf(&sb, "H id=%d qr=%v op=%d aa=%v tc=%v rd=%v ra=%v ad=%v cd=%v rc=%d\n", id, bits&0x8000 != 0, bits>>11&0xf,
@@ -797,51 +820,52 @@ func c36RefDecode(msg []byte) (string, int, error) {
 	for i := 0; i < int(cnt[0]); i++ {
 		n, err := d.name()
 		if err != nil {
-			return "", 0, err
+			return "", nil, 0, err
 		}
 		t, err := d.u16()
 		if err != nil {
-			return "", 0, err
+			return "", nil, 0, err
 		}
 		c, err := d.u16()
 		if err != nil {
-			return "", 0, err
+			return "", nil, 0, err
 		}
-		fmt.Fprintf(&sb, "Q %s type=%d class=%d\n", strconv.Quote(n), t, c)
+		fmt.Fprintf(&sb, "Q %s type=%d class=%d\n", c36QuoteName(n), t, c)
 	}
 	for sec := 1; sec <= 3; sec++ {
 		for i := 0; i < int(cnt[sec]); i++ {
 			n, err := d.name()
 			if err != nil {
-				return "", 0, err
+				return "", nil, 0, err
 			}
 			t, err := d.u16()
 			if err != nil {
-				return "", 0, err
+				return "", nil, 0, err
 			}
 			c, err := d.u16()
 			if err != nil {
-				return "", 0, err
+				return "", nil, 0, err
 			}
 			ttl, err := d.u32()
 			if err != nil {
-				return "", 0, err
+				return "", nil, 0, err
 			}
 			l, err := d.u16()
 			if err != nil {
-				return "", 0, err
+				return "", nil, 0, err
 			}
-			fmt.Fprintf(&sb, "R%d %s type=%d class=%d ttl=%d len=%d ", sec, strconv.Quote(n), t, c, ttl, l)
+			fmt.Fprintf(&sb, "R%d %s type=%d class=%d ttl=%d ", sec, c36QuoteName(n), t, c, ttl)
+			lens = append(lens, l)
 			if err := d.rdata(&sb, t, int(l)); err != nil {
-				return "", 0, err
+				return "", nil, 0, err
 			}
 			sb.WriteByte('\n')
 		}
 	}
 	if d.off != len(msg) {
-		return "", 0, c36RefErr("%d trailing bytes", len(msg)-d.off)
+		return "", nil, 0, c36RefErr("%d trailing bytes", len(msg)-d.off)
 	}
-	return sb.String(), d.pointers, nil
+	return sb.String(), lens, d.pointers, nil
 }
 
 // ---- Builder driver -----------------------------------------------------------
